@@ -532,7 +532,7 @@ func (r *runner) step(op Op) (o opObs) {
 			}
 			break
 		}
-		if !h.Equal(&ri.hash) {
+		if !h.Equal(&ri.hash) && !r.unsupported && !r.outOfDomain {
 			r.viol = append(r.viol, fmt.Sprintf("%s: commit of root %d returned hash %s, contents hash to %s", r.kind, op.ID, h, ri.hash))
 		}
 		// reference bookkeeping
@@ -1099,7 +1099,7 @@ func genCase(r *prng.R, profile string) Case {
 	var finStates []int      // all finalized state roots of the previous version (badger profile)
 	removed := map[int]int{}
 	earliest := start
-	var pruned []int
+	var pruned, keptIDs []int
 	shareLeaf := r.Chance(60)
 	for vi := 0; vi < nver; vi++ {
 		ver := start + uint64(vi)
@@ -1176,6 +1176,7 @@ func genCase(r *prng.R, profile string) Case {
 			fin = append(fin, finIO)
 		}
 		g.ops = append(g.ops, Op{K: "finalize", Ver: ver, Roots: fin})
+		keptIDs = append(keptIDs, fin...)
 		if profile == "errors" && r.Chance(30) {
 			g.ops = append(g.ops, Op{K: "finalize", Ver: ver, Roots: fin}) // already finalized
 		}
@@ -1185,8 +1186,8 @@ func genCase(r *prng.R, profile string) Case {
 				g.ops = append(g.ops, Op{K: "prune", Ver: earliest + 1}) // not earliest
 			}
 			g.ops = append(g.ops, Op{K: "prune", Ver: earliest})
-			for id, v := range g.verOf {
-				if v == earliest {
+			for _, id := range keptIDs { // only roots that were finalized: a commit on top of a discarded
+				if g.verOf[id] == earliest { // candidate depends on which tree paths it touches
 					pruned = append(pruned, id)
 				}
 			}
